@@ -3,6 +3,7 @@
    ExtrOcamlString (ascii -> char, string -> char list).  No Extract Constant of our own. *)
 From Coq Require Import Extraction ExtrOcamlBasic ExtrOcamlString.
 From Ucg Require Import base.Bytes data.Val prec.Climb env.Collector env.Out data.Json data.MapJson data.B64 path.Path sem.Ast sem.Sem sem.FloatInst shell.Shell lex.Lex_Types lex.Vocab lex.Lex vm.Ops vm.Translate vm.Vm vm.Compile_Rel vm.Compile_Correct.
+From Ucg Require Import env.Import env.Batch.
 From UcgGen Require Import PrecTable DocPrecTable.
 
 Extraction Language OCaml.
@@ -33,3 +34,9 @@ Extraction "model.ml" climb_code spec_doc dec_of_Z
   json_output json_input json_parse json_print to_json from_json b64_encode b64_decode normalize resolve
   sem_run sem_float_bits env_emit flags_emit exec_emit sh_words sh_env sh_script esc_sq esc_dq lex lex_all
   translate vm_run_prog in_fragment.
+
+(* C16 / C09: the import and batch state machines, in a module of their own (their result/val types have the same
+   constructor names as the semantics') *)
+Definition batch_current := batch LockPerEvaluation.
+Definition batch_legacy := batch LockPerInvocation.
+Extraction "model_batch.ml" batch_current batch_legacy exit_status default_fuel evaluations artifacts empty_state.
